@@ -3,11 +3,11 @@ package main
 import (
 	"bytes"
 	"fmt"
-	"regexp"
 	"go/parser"
 	"go/token"
 	"os"
 	"path/filepath"
+	"regexp"
 	"strings"
 
 	"verif/internal/gen"
